@@ -361,3 +361,22 @@ def replay(ctx, path):
         if isinstance(rep.get(k), dict) and "A_hex" in rep[k]:
             extra.append(c08lib.Case.from_json(rep[k]))
     run(ctx, extra_cases=extra)
+
+
+META = {
+    "text": "Rocq theorems over the reals (exact arithmetic) for EVERY order n and every input, by loop invariants on a model "
+            "that indexes the in-place storage as the C does: the routines never leave their buffers; PLU success => p is a "
+            "permutation, sign = its parity, |multipliers| <= 1, |u_ii| >= tiny, P*A = L*U, solve/inv/strided inv give A x = b "
+            "and A X = I, det = sign*prod u_ii with lndet/sgndet agreeing; zero column / duplicated rows / vanishing pivot => "
+            "failure; the analogous LDL^T (A = L D L^T, singular => failure) and Cholesky (A = L L^T, l_ii > 0, non-positive or "
+            "small pivot => failure) families. PARTIAL (named _partial): residuals are exactly 0 over R; the floating-point "
+            "componentwise rounding bounds are measured by an exact-rational oracle on the C output, not proved. Tie: the same "
+            "polymorphic term at PrimFloat (vm_compute) vs the C bit for bit on all 34 routines incl. lndet (libm log logged "
+            "via --wrap and supplied to the model).",
+    "note": "Trusted: Coq kernel/vm_compute with primitive floats and ints; real-number axioms listed by Print Assumptions; "
+            "the 'same term, different NumOps record' argument between R and binary64; running-pointer walks modelled by "
+            "closed-form cell indices, a_uint as nat; hand-written model tied bit for bit on generated matrices (orders 1-12 "
+            "quick, 1-24 thorough) only. On finite inputs whose intermediates overflow the C reports success with inf/NaN "
+            "factors (x < A_REAL_MIN is false for NaN): treated as outside the property's rounding model and counted in the evidence.",
+    "technique": "Rocq proof over R (loop invariants P_k A = L_k R_k, permutation parity, triangular solves) + bit-exact primitive-float model vs C correspondence + exact-rational residual oracle",
+}
